@@ -432,23 +432,36 @@ static void fam_structure(void)
 static void fam_scale(void)
 {
 	cur_fam = "scale-strings";
-	static const int lens[] = {127, 128, 129, 255, 256, 257, 4095, 4096, 4097};
-	static const unsigned char special[] = {'"', '\\', '/', '\n', 0x00, 0x1f, 0x7f, 0xff};
+	static const int lens[] = {127, 128, 129, 255, 256, 257, 511, 512, 513, 1023, 1024, 1025, 4095, 4096, 4097};
+	static unsigned char special[40];
+	int nspecial = 0;
+	for (int c = 0; c < 0x20; c++)
+		special[nspecial++] = (unsigned char)c;
+	special[nspecial++] = '"';
+	special[nspecial++] = '\\';
+	special[nspecial++] = '/';
+	special[nspecial++] = 0x7f;
+	special[nspecial++] = 0xff;
 	static unsigned char big[5000];
 	for (unsigned l = 0; l < sizeof lens / sizeof lens[0]; l++)
 	{
 		int len = lens[l];
 		int poss[6] = {0, 1, len / 2, len - 2, len - 1, 30};
 		for (int pi = 0; pi < 6; pi++)
-			for (unsigned k = 0; k < sizeof special; k++)
+			for (int k = 0; k < nspecial; k++)
 			{
-				if (len > 300 && (k & 1))
-					continue;
 				va_reset();
 				for (int i = 0; i < len; i++)
 					big[i] = (unsigned char)('a' + i % 26);
 				big[poss[pi]] = special[k];
 				check_tree(v_str(big, (size_t)len));
+				/* the same bytes as a member name (no NUL: names are C strings) */
+				if (pi == 2 && special[k])
+				{
+					V *o = v_obj(1);
+					v_obj_set(o, 0, (const char *)big, (size_t)len, v_int(0, 1));
+					check_tree(o);
+				}
 			}
 	}
 	cur_fam = "scale-containers";
